@@ -8,6 +8,7 @@ if ctx.replay:
     _core_check.replay(ctx); sys.exit(0)
 ctx.level = 'proof'
 vlib.proof_phase(ctx)
+_core_check.source_ordering(ctx)
 res = coresuite.perm_suite(ctx.tier, ctx.seed)
 cov = coresuite.summarize_groups(ctx, res, 'registration orders')
 vlib.finish(ctx, cov, assumptions=['observations of the real library are compared across registration orders directly (model not involved); the theorem is about the specification, which the dispatch checks C01-C03 tie to the implementation'])
